@@ -278,7 +278,7 @@ fn random_worker(
         cases: cases as u32,
         rng_seed: RngSeed::Fixed(seed),
         failure_persistence: None,
-        max_shrink_iters: 20_000,
+        max_shrink_iters: 8_000,
         max_shrink_time: 0,
         max_global_rejects: 1 << 30,
         max_local_rejects: 1 << 30,
@@ -299,7 +299,7 @@ fn random_worker(
         if !counting {
             // shrinking: bound the time spent
             let mut d = shrink_deadline.borrow_mut();
-            let dl = d.get_or_insert_with(|| Instant::now() + std::time::Duration::from_secs(60));
+            let dl = d.get_or_insert_with(|| Instant::now() + std::time::Duration::from_secs(25));
             if Instant::now() > *dl {
                 return Ok(());
             }
